@@ -1,10 +1,18 @@
 /-
 C14 — compiled contracts behave like the Go source.  Property theorems for the modelled core
-(MiniGo → NeoVM): helper lemmas live in Proofs/Compile*.lean.
+(MiniGo → NeoVM); helper lemmas live in Proofs/Compile*.lean.
+
+Reading guide.  `evalE fuel P env e = .ok v` is the Go semantics (64-bit ints, `.overflow` when an
+intermediate leaves the range — the property's side condition — `.panic` where Go panics).
+`compE cx sc e m nl` is what codegen.go emits for `e` (m = .val: Visit/emitBinaryExpr leave the value on the
+stack; m = .jump cond t: emitBoolExpr jumps to label t iff the value equals cond).  `Reach C s s'`: the
+assembly machine runs from s to s' without stopping.  `Placed C pc c`: the code c sits in the program C at
+index pc.  `VarsRel cx sc env locals args`: the compile-time scopes `sc` (vars.go) and the machine's slots
+describe the run-time environment `env`.
 -/
-import NeoModel.Model.Compile
+import NeoModel.Proofs.CompileExpr
 namespace NeoModel.C14
-open NeoModel.MiniVm NeoModel.MiniGo NeoModel.Compile
+open NeoModel.MiniVm NeoModel.MiniVm.Asm NeoModel.MiniGo NeoModel.Compile NeoModel.CompileProofs
 
 /-- slot allocation (vars.go newLocal): a new local gets the slot `cnt`, which no earlier local has. -/
 theorem newLocal_slot (st : St) (x : String) :
@@ -14,5 +22,47 @@ theorem newLocal_slot (st : St) (x : String) :
 
 example : lookupSlot (({ nl := 0, cnt := 3, scopes := [[("y", 0)]] } : St).newLocal "x").scopes "x" = some 3 :=
   (newLocal_slot _ _).1
+
+/-- compile_correct, expression + locals fragment, value context:
+    if the Go semantics gives `e` the value `v` (no overflow, no panic), the emitted code pushes `v` and
+    leaves everything else (stack below, slots, frames) unchanged.  Call-free expressions. -/
+theorem compile_expr_correct (P : Prog) (cx : Ctx) (sc : Scopes) (env : Env) (fuel : Nat)
+    (e : Expr) (nl : Nat) (C : Code) (s : State) (v : Val)
+    (hnc : NoCall e) (hev : evalE fuel P env e = .ok v)
+    (hp : Placed C s.pc (compE cx sc e .val nl).1) (hn : (labelsOf C).Nodup)
+    (hrel : VarsRel cx sc env s.locals s.args) :
+    Reach C s { s with pc := s.pc + (compE cx sc e .val nl).1.length, stack := v :: s.stack } :=
+  exprOK P cx sc env fuel e .val nl C s v hnc hev hp hn hrel
+
+/-- compile_correct, condition context (emitBoolExpr with needJump): the code jumps to the label `t` exactly
+    when the value of `e` equals `cond`, otherwise falls through; the stack is unchanged (the stack-depth
+    discipline at jump targets). -/
+theorem compile_cond_correct (P : Prog) (cx : Ctx) (sc : Scopes) (env : Env) (fuel : Nat)
+    (e : Expr) (cond : Bool) (t tp nl : Nat) (C : Code) (s : State) (b : Bool)
+    (hnc : NoCall e) (hev : evalE fuel P env e = .ok (.bool b))
+    (hp : Placed C s.pc (compE cx sc e (.jump cond t) nl).1) (hn : (labelsOf C).Nodup)
+    (hrel : VarsRel cx sc env s.locals s.args) (ht : findLabel C t = some tp) :
+    Reach C s { s with pc := if b == cond then tp else s.pc + (compE cx sc e (.jump cond t) nl).1.length } := by
+  have := exprOK P cx sc env fuel e (.jump cond t) nl C s (.bool b) hnc hev hp hn hrel
+  simpa [Post, Val.toBool] using this tp ht
+
+/-! non-vacuity: `a0 < 3 && !(a1 == 7)` with a0 = 2, a1 = 5, in value and in condition context -/
+section example_
+def exE : Expr := .bin .land (.bin .lt (.var "a0") (.lit 3)) (.not (.paren (.bin .eq (.var "a1") (.lit 7))))
+def exCx : Ctx := { funcs := [], args := ["a0", "a1"] }
+def exEnv : Env := { frames := [[]], args := [("a0", .int 2), ("a1", .int 5)] }
+def exS : State := { pc := 0, stack := [], locals := [], args := [.int 2, .int 5], frames := [] }
+
+example : evalE 10 [] exEnv exE = .ok (.bool true) := by rfl
+example : NoCall exE := by simp [exE, NoCall]
+example : VarsRel exCx [[]] exEnv exS.locals exS.args :=
+  ⟨by simp [exEnv, FramesRel, FrameRel], rfl, rfl⟩
+example : Reach (compE exCx [[]] exE .val 0).1 exS
+    { exS with pc := (compE exCx [[]] exE .val 0).1.length, stack := [.bool true] } := by
+  have := compile_expr_correct [] exCx [[]] exEnv 10 exE 0 (compE exCx [[]] exE .val 0).1 exS (.bool true)
+    (by simp [exE, NoCall]) (by rfl) ⟨[], [], by simp, rfl⟩ (by decide)
+    ⟨by simp [exEnv, FramesRel, FrameRel], rfl, rfl⟩
+  simpa [exS] using this
+end example_
 
 end NeoModel.C14
